@@ -507,6 +507,29 @@ PBKDF2_GHOST = ["ascon_xof_init_custom=verif_ghost_xof_init_custom", "ascon_xof_
                 "ascon_xof_free=verif_ghost_xof_free", "ascon_clean=verif_ghost_clean"]
 
 
+def pbkdf2_hmac_groups(prefix, props, tier="quick"):
+    """ascon_pbkdf2_hmac == RFC 8018 over abstract HMAC (plain-assertion groups, constant count / output length)"""
+    gs = []
+    for cnt in (0, 1, 2, 3):
+        for ol in ((0, 1, 32, 33) if tier == "quick" else (0, 1, 31, 32, 33, 64, 65)):
+            gs.append(Group("%s.ascon_pbkdf2_hmac.count%d.out%d" % (prefix, cnt, ol), props, "harness/h_pbkdf2_hmac.c", "h_pbkdf2_hmac",
+                            ["src/password/ascon-pbkdf2-hmac.c", CLEAN, X64], defs=["VERIF_COUNT=%d" % cnt, "VERIF_OUTLEN=%d" % ol, "VERIF_PLAIN"],
+                            drop_unused=True, unwind=70, timeout=600, functions=["ascon_pbkdf2_hmac"], assumed=["ascon_hmac_*"],
+                            expect_classes=["assertion"]))
+    return gs
+
+
+def kmac_table_groups(prefix, props, cfgs=("C64", "C32", "DX")):
+    """pre-computed first block of KMAC / KMACA == p^12 of the specified IV block, per state encoding (concrete)"""
+    gs = []
+    for cfg in cfgs:
+        for sfx, d in (("", []), ("a", ["VARIANT_A"])):
+            gs.append(Group("%s.ascon_kmac%s.precomputed_block.%s" % (prefix, sfx, cfg), props, "harness/h_kmac_table.c", "h_kmac_table",
+                            [BACKEND_SRC[cfg], CLEAN], cfg=cfg, defs=d, drop_unused=True, unwind=45, timeout=600,
+                            functions=["ascon_kmac%s_init_precomputed" % sfx], expect_classes=["assertion"]))
+    return gs
+
+
 def cxof_kdf_groups(prefix, props, which, cfg="C64", tier="quick"):
     """KMAC / KDF / PBKDF2 over the customised XOF (plain-assertion groups over specification stubs)."""
     gs = []
@@ -524,7 +547,7 @@ def cxof_kdf_groups(prefix, props, which, cfg="C64", tier="quick"):
                       ["OP_kdf", "VERIF_OUTLEN=%d" % ol] + va + al)
     if "kmac" in which:
         for va, sfx in (([], ""), (["VARIANT_A"], "a")):
-            for ol in ((16, 40) if tier == "quick" else (0, 1, 16, 31, 33, 40)):       # 32 is served from a pre-computed table (concrete group)
+            for ol in ((16, 32, 40) if tier == "quick" else (0, 1, 16, 31, 32, 33, 40)):       # 32 is served from a pre-computed table
                 for al in ([], ["A_LONG"]):
                     G("ascon_kmac%s.out%d%s" % (sfx, ol, ".longkey" if al else ""), ["src/mac/ascon-kmac%s.c" % sfx],
                       ["OP_kmac", "VERIF_OUTLEN=%d" % ol] + va + al)
